@@ -92,7 +92,7 @@ var loopRe = regexp.MustCompile(`^loop\s+(\d+)\s*:\s*(.*)$`)
 func isKeyword(w string) bool {
 	switch w {
 	case "end_of_body", "assumes", "ghostvar", "props_tagged_only", "section", "rename", "renamekey", "params", "def", "func", "props", "results", "requires", "ensures", "modifies", "loop", "panics_when", "may_panic", "assert", "assume",
-		"axiom", "lemma", "trusted", "inline", "ghost", "decreases", "allocates", "induction", "note", "end", "use", "opaque", "bounded", "template", "havoc", "order_independent", "order_assumed", "order_exempt", "order_only", "effect", "emits", "after", "invariant", "before_stmt", "after_stmt", "effects_only":
+		"axiom", "lemma", "trusted", "inline", "ghost", "decreases", "allocates", "induction", "note", "end", "use", "opaque", "bounded", "template", "havoc", "order_independent", "order_assumed", "order_exempt", "order_only", "effect", "emits", "libarg", "after", "invariant", "before_stmt", "after_stmt", "effects_only":
 		return true
 	}
 	return false
@@ -396,7 +396,30 @@ func parseSpec(s string) (SpecNode, error) {
 				q.Vars = append(q.Vars, SBinder{Name: n.Name, Type: fld.Type})
 			}
 		}
-		body := s[i+2:]
+		body := strings.TrimSpace(s[i+2:])
+		// optional triggers: forall x T :: {term; term} body - each term is one alternative single-term pattern
+		if strings.HasPrefix(body, "{") {
+			d, j := 0, 0
+			for ; j < len(body); j++ {
+				if body[j] == '{' {
+					d++
+				} else if body[j] == '}' {
+					d--
+					if d == 0 {
+						break
+					}
+				}
+			}
+			if j >= len(body) {
+				return nil, fmt.Errorf("unterminated trigger group in %q", s)
+			}
+			for _, t := range strings.Split(body[1:j], ";") {
+				if t = strings.TrimSpace(t); t != "" {
+					q.Trig = append(q.Trig, t)
+				}
+			}
+			body = body[j+1:]
+		}
 		b, err := parseSpec(body)
 		if err != nil {
 			return nil, err
